@@ -114,7 +114,9 @@ func configureCoordinators(app *protocol.ApplicationContext, coordinators []prot
 	// Catch panics here and flag in the application context if we can't continue
 	defer func() {
 		if r := recover(); r != nil {
-			app.Logger.Panic(r.(string))
+			// Log the failure and flag it: logging with Panic would panic again (and a panic value is not always
+			// a string), so that Start would never get to return 1
+			app.Logger.Error("configuration failed", zap.Any("reason", r))
 			app.ConfigurationValid = false
 		}
 	}()
